@@ -20,6 +20,7 @@ CONSTANTS
   SMIN = 1
   SMAX = 2
   XSKIP = TRUE
+  CLRWAIT = TRUE
 INVARIANTS Linearizable NoDeadlock ResizeSafe QuiescentOK ReadersNeverBlock IterWeak GhostOK
 PROPERTY NeverShrinks
 VIEW view
